@@ -34,6 +34,7 @@ type Server struct {
 	supportsConfiguration bool
 	payeeTemplatesCache   sync.Map // map[protocol.DocumentURI]map[string][]analyzer.PostingTemplate
 	publishMu             sync.Mutex
+	docMu                 sync.Mutex // a document's text and its recorded include resolution change together
 	refreshMu             sync.Mutex
 }
 
@@ -171,7 +172,10 @@ func (s *Server) Exit(ctx context.Context) error {
 }
 
 func (s *Server) DidOpen(ctx context.Context, params *protocol.DidOpenTextDocumentParams) error {
+	s.docMu.Lock()
 	s.documents.Store(params.TextDocument.URI, params.TextDocument.Text)
+	s.resolved.Delete(params.TextDocument.URI)
+	s.docMu.Unlock()
 	go s.publishDiagnostics(ctx, params.TextDocument.URI, params.TextDocument.Text)
 	return nil
 }
@@ -189,10 +193,12 @@ func (s *Server) DidChange(ctx context.Context, params *protocol.DidChangeTextDo
 				content = applyChange(content, change.Range, change.Text)
 			}
 		}
-		s.documents.Store(params.TextDocument.URI, content)
 		// the include resolution of the superseded version must not answer
 		// requests about the new text; the analysis started below replaces it
+		s.docMu.Lock()
+		s.documents.Store(params.TextDocument.URI, content)
 		s.resolved.Delete(params.TextDocument.URI)
+		s.docMu.Unlock()
 		s.payeeTemplatesCache.Delete(params.TextDocument.URI)
 		if s.workspace != nil {
 			if path := uriToPath(params.TextDocument.URI); path != "" {
@@ -211,8 +217,10 @@ func isFullChange(r protocol.Range) bool {
 }
 
 func (s *Server) DidClose(ctx context.Context, params *protocol.DidCloseTextDocumentParams) error {
+	s.docMu.Lock()
 	s.documents.Delete(params.TextDocument.URI)
 	s.resolved.Delete(params.TextDocument.URI)
+	s.docMu.Unlock()
 	s.payeeTemplatesCache.Delete(params.TextDocument.URI)
 	tokenCache.delete(params.TextDocument.URI)
 	return nil
@@ -254,13 +262,13 @@ func (s *Server) publishDiagnostics(ctx context.Context, docURI protocol.Documen
 	}
 	resolved, loadErrors := s.loader.LoadFromContent(path, content)
 	// only the analysis of the document's current content may record its result
-	s.publishMu.Lock()
+	s.docMu.Lock()
 	if current, ok := s.GetDocument(docURI); !ok || current != content {
-		s.publishMu.Unlock()
+		s.docMu.Unlock()
 		return
 	}
 	s.resolved.Store(docURI, resolved)
-	s.publishMu.Unlock()
+	s.docMu.Unlock()
 
 	diagnostics := s.analyze(content, resolved)
 
